@@ -1,4 +1,5 @@
 import Hls.Props.C20
+import Hls.Props.C20Text
 #print axioms Hls.C20.setters_commute
 #print axioms Hls.C20.setter_last_wins
 #print axioms Hls.C20.setter_push_commute
@@ -14,3 +15,7 @@ import Hls.Props.C20
 #print axioms Hls.C20.built_numbering
 #print axioms Hls.C20.master_parser_is_builder
 #print axioms Hls.C20.master_build_never_panics
+#print axioms Hls.C20T.parse_of_lines
+#print axioms Hls.C20T.builder_text_agree_text
+#print axioms Hls.C20T.pushes_text_agree
+#print axioms Hls.C20T.accepted_text_builds
